@@ -80,6 +80,13 @@ func (k Keeper) MintAndAllocate(ctx sdk.Context) error {
 	// Update the previous block timestamp for the next cycle.
 	k.SetPrevBlockTS(ctx, currentBlockTS.RoundInt())
 
+	// this block reached the max supply and switched minting off: forget the
+	// timestamp, so that a re-activation before the next end of block starts
+	// like a first activation instead of minting for the elapsed interval
+	if !params.EnableCoinomics {
+		k.SetPrevBlockTS(ctx, sdk.ZeroInt())
+	}
+
 	return nil
 }
 
